@@ -20,6 +20,7 @@ use crate::{
             sinclair::{SinclairJoyNum, SinclairKey},
         },
         keys::{CompoundKey, ZXKey},
+        memory::{Page, PAGE_SIZE},
         mouse::kempston::{KempstonMouseButton, KempstonMouseWheelDirection},
         tape::{Tap, TapeImpl},
         video::colors::ZXColor,
@@ -320,6 +321,12 @@ impl<H: Host> Emulator<H> {
             match action {
                 poke::PokeAction::Mem { addr, value } => {
                     self.controller.memory.force_write(addr, value);
+                    // Poked screen memory must be visible on the screen
+                    if let Page::Ram(bank) = self.controller.memory.get_page(addr) {
+                        self.controller
+                            .screen
+                            .update(addr % PAGE_SIZE as u16, bank as usize, value);
+                    }
                 }
             }
         }
